@@ -5,7 +5,7 @@
 use crate::ast::day_num;
 use crate::util::Rng;
 use chrono::{Datelike, NaiveDate, Weekday};
-use opening_hours_syntax::rules::day::{Date, MonthdayRange, WeekDayRange};
+use opening_hours_syntax::rules::day::{Date, DateOffset, MonthdayRange, WeekDayOffset, WeekDayRange};
 use opening_hours_syntax::rules::OpeningHoursExpression;
 
 fn push3(out: &mut Vec<i64>, d: Option<NaiveDate>) {
@@ -42,6 +42,27 @@ fn easter(y: i32) -> Option<NaiveDate> {
     let l = (32 + 2 * e + 2 * i - h - k) % 7;
     let m = (a + 11 * h + 22 * l) / 451;
     NaiveDate::from_ymd_opt(y, ((h + l - 7 * m + 114) / 31) as u32, ((h + l - 7 * m + 114) % 31 + 1) as u32)
+}
+
+fn plus_days(d: NaiveDate, n: i64) -> NaiveDate {
+    d.checked_add_signed(chrono::Duration::days(n)).unwrap_or(d)
+}
+
+/// the date a bound denotes once its offsets are applied — computed HERE, not by the library's
+/// `DateOffset::apply` (the days to look at must not depend on the code under test)
+fn shifted(base: NaiveDate, off: &DateOffset) -> NaiveDate {
+    let d = plus_days(base, off.day_offset.clamp(-100_000, 100_000));
+    let wd = |x: Weekday| i64::from(x.num_days_from_monday());
+    match off.wday_offset {
+        WeekDayOffset::None => d,
+        WeekDayOffset::Next(t) => plus_days(d, (wd(t) - wd(d.weekday())).rem_euclid(7)),
+        WeekDayOffset::Prev(t) => plus_days(d, -(wd(d.weekday()) - wd(t)).rem_euclid(7)),
+    }
+}
+
+/// day number of Easter Sunday of year `y` (the harness's own computation)
+pub fn easter_day(y: i32) -> Option<i64> {
+    easter(y).map(day_num)
 }
 
 fn date_on(d: &Date, y: i32) -> Vec<NaiveDate> {
@@ -84,8 +105,29 @@ pub fn boundary_days(e: &OpeningHoursExpression, focus: i32, hol: &[i64]) -> Vec
                     for yy in [focus - 1, focus, focus + 1] {
                         for (d, off) in [start, end] {
                             for base in date_on(d, yy) {
-                                push3(&mut out, Some(off.apply(base)));
+                                push3(&mut out, Some(shifted(base, off)));
                                 push3(&mut out, Some(base));
+                            }
+                        }
+                    }
+                    // a weekday offset does nothing when the date already falls on that weekday: the
+                    // years in which it does (one in seven for a fixed date, every year for `easter+Su`)
+                    // are where an off-by-a-week slip shows — the date, ±1, and one week either side
+                    for (d, off) in [start, end] {
+                        let target = match off.wday_offset {
+                            WeekDayOffset::None => continue,
+                            WeekDayOffset::Next(w) | WeekDayOffset::Prev(w) => w,
+                        };
+                        let mut found = 0;
+                        for yy in focus - 1..focus + 30 {
+                            for base in date_on(d, yy) {
+                                let b = plus_days(base, off.day_offset.clamp(-400, 400));
+                                if b.weekday() == target && found < 2 {
+                                    found += 1;
+                                    for k in [-8, -7, -6, -1, 0, 1, 6, 7, 8] {
+                                        out.push(day_num(plus_days(b, k)));
+                                    }
+                                }
                             }
                         }
                     }
